@@ -129,6 +129,7 @@ def units(tier):
         us.append(('TE', ending))
     for which_set in ('first', 'last'):
         us.append(('H', which_set))
+    us.append(('HF',))
     return us
 
 
@@ -1014,6 +1015,91 @@ def header_case(which_set, step_text, time_text):
     return out
 
 
+# ---------------------------------------------------------------------------------------------------------
+# HF: the readers as the TOUGH2 history-file reader (t2historyfile, comma-separated FOFT/COFT/GOFT) uses them: records
+# 'step, time, key, v1, v2, v3, key, v1, v2, v3,' whose value fields hold blank / D-exponent / letter-less / asterisk /
+# padded texts, one field at a time and all at once.  Every row must be [time] + fortran_float(field text) per field.
+
+HF_FILL = ['0.1230000000E+01', '0.4560000000E+02', '0.7890000000E+03']
+
+
+def history_texts():
+    return ['', '   ', '0.1D+01', ' 0.25d-03', '.25-101', '1.5+100', '0.1E 05', '**********', '0.0000000000E+00', '-0.0',
+            ' 0.1000000000E+06 ', '+.5E+00', 'NaN']
+
+
+def history_case(texts):
+    """texts: list of records, each a list of 6 value-field texts (two keys x three columns).  -> [(sig, what)]"""
+    import t2listing
+    import fixed_format_file as fff
+    d = os.path.join(core.scratch(), 'c16_hist')
+    os.makedirs(d, exist_ok=True)
+    path = os.path.join(d, 'FOFT')
+    recs = [list(HF_FILL) + list(HF_FILL)] + [list(t) for t in texts]
+    lines = []
+    for k, vals in enumerate(recs):
+        lines.append('%6d, %s,%8d,%s,%8d,%s,' % (k + 1, '%.6E' % (10.0 * (k + 1)), 3, ','.join(vals[:3]), 17, ','.join(vals[3:])))
+    with open(path, 'w') as f:
+        f.write('\n'.join(lines) + '\n')
+    want = []
+    for k, vals in enumerate(recs):
+        t = float('%.6E' % (10.0 * (k + 1)))
+        want.append([t] + [fff.fortran_float(v) for v in vals[:3]])
+        want.append([t] + [fff.fortran_float(v) for v in vals[3:]])
+    site = 'C16|t2historyfile.read_data_TOUGH2'
+    try:
+        with core.timelimit(CHILD_LIMIT):
+            with contextlib.redirect_stdout(io.StringIO()):
+                h = t2listing.t2historyfile(path)
+        got = [list(row) for row in h._data]
+    except core.CaseTimeout:
+        return [('%s|does-not-terminate|history-file' % site, 'no result in %d s' % CHILD_LIMIT)]
+    except BaseException as e:
+        if isinstance(e, (KeyboardInterrupt, SystemExit)):
+            raise
+        return [('%s|raises-%s|history-file' % (site, type(e).__name__), 'history file with records %r cannot be read: %r' % (lines[1:3], e))]
+    out = []
+    if len(got) != len(want):
+        out.append(('%s|row-count|history-file' % site, '%d rows read, %d printed' % (len(got), len(want))))
+    for r, (g, w) in enumerate(zip(got, want)):
+        cg, cw = [canon(float(x)) for x in g], [canon(x) for x in w]
+        if cg != cw:
+            vals = recs[r // 2][(r % 2) * 3:(r % 2) * 3 + 3]
+            bad = [v for v, a, b in zip(vals, cg[1:], cw[1:]) if a != b] or vals
+            out.append(('%s|row-values|%s' % (site, file_class(bad[0])),
+                        'record %r: values of key %d read as %r, fortran_float gives %r for the fields %r'
+                        % (lines[r // 2], (3, 17)[r % 2], g, w, vals)))
+            break
+    return out
+
+
+def run_HF(tier, rec):
+    n = 0
+    texts = history_texts()
+    f = fns()
+    for t in texts:
+        if t.strip(' ') and R.expect_real(t)[0] != R.ANY:
+            j = R.judge_real(t, f['fortran_float'](t, SENT), SENT)
+            if j is not None:
+                rec.violation('C16|fortran_float|%s|%s' % (j[0], R.input_class(t)), 'fortran_float(%r) is not %s' % (t, j[1]),
+                              {'fn': 'fortran_float', 's': t, 'blank': 'sentinel'})
+    # one file per (text, position): the text in one field, fillers elsewhere; plus one file with every text everywhere
+    cases = []
+    for t in texts:
+        for p in range(6):
+            v = list(HF_FILL) + list(HF_FILL)
+            v[p] = t
+            cases.append([v])
+    cases.append([[texts[(i + p) % len(texts)] for p in range(6)] for i in range(len(texts))])
+    for recs in cases:
+        for sig, what in history_case(recs):
+            rec.violation(sig, what, {'kind': 'history-file', 'texts': recs})
+        rec.case(('HF', repr(recs)), outcome='history-file')
+        n += 1
+    rec.count('history_file_cases', n)
+    rec.sample({'history_record': '     2, 2.000000E+01,       3,0.1230000000E+01,   ,0.7890000000E+03,      17,...'})
+
+
 def file_class_int(t):
     cls, val = R.expect_int(t)
     if cls == R.NONE:
@@ -1082,6 +1168,8 @@ def run_unit(unit, tier, rec):
         run_TE(unit[1], tier, rec)
     elif kind == 'H':
         run_H(unit[1], tier, rec)
+    elif kind == 'HF':
+        run_HF(tier, rec)
     else:
         raise core.HarnessError('unknown unit %r' % (unit,))
 
@@ -1098,6 +1186,8 @@ def finalize(rec, tier):
 def replay(case):
     if case.get('kind') == 'file-ending':
         return ending_case(case['ending'], case['vars'])
+    if case.get('kind') == 'history-file':
+        return history_case(case['texts'])
     if case.get('kind') == 'listing-header':
         return header_case(case['set'], case['step_text'], case['time_text'])
     if case.get('kind') == 'file':
